@@ -632,6 +632,244 @@ def _extra_win(rng, n, bad):
     return rng.choice([slice(None), slice(a, b), slice(a, b), slice(None, b), slice(a - n - 0, None) if a < n else slice(a, None)])
 
 
+
+# ------------------------------------------------------------------ held results: aliasing / staleness / input mutation
+class Held:
+    """Keeps results (and inputs) of earlier calls alive together with a private snapshot taken when they were
+    returned; `recheck` compares them again after later calls were made on the same objects."""
+
+    def __init__(self, R: Run, key="result-mutated-by-later-call"):
+        self.R, self.key, self.items = R, key, []
+
+    @staticmethod
+    def snap(o):
+        import copy
+
+        if isinstance(o, np.ndarray):
+            return o.copy()
+        if isinstance(o, dict):
+            return {k: Held.snap(v) for k, v in o.items()}
+        if isinstance(o, (list, tuple)):
+            return type(o)(Held.snap(v) for v in o) if type(o) in (list, tuple) else copy.deepcopy(o)
+        try:
+            return copy.deepcopy(o)
+        except Exception:  # pylint: disable=broad-except
+            return repr(o)
+
+    @staticmethod
+    def same(o, s) -> bool:
+        if isinstance(s, np.ndarray):
+            return isinstance(o, np.ndarray) and o.shape == s.shape and o.dtype == s.dtype and bool(
+                np.array_equal(o, s, equal_nan=(s.dtype.kind in "fc")))
+        if isinstance(s, dict):
+            return isinstance(o, dict) and list(o.keys()) == list(s.keys()) and all(Held.same(o[k], s[k]) for k in s)
+        if type(s) in (list, tuple):
+            return type(o) is type(s) and len(o) == len(s) and all(Held.same(a, b) for a, b in zip(o, s))
+        if isinstance(s, str) and not isinstance(o, str):
+            return repr(o) == s
+        try:
+            return bool(o == s)
+        except Exception:  # pylint: disable=broad-except
+            return repr(o) == repr(s)
+
+    def hold(self, what, case, obj, key=None):
+        self.items.append((what, case, obj, Held.snap(obj), key or self.key))
+        return obj
+
+    def recheck(self):
+        for what, case, obj, snap, key in self.items:
+            self.R.oracle(Held.same(obj, snap), key, case, f"{what}: value changed after later calls (now {str(obj)[:120]})",
+                          sig=key)
+        # distinct array results must not share memory
+        arrs = [(w, c, o) for w, c, o, _s, k in self.items if isinstance(o, np.ndarray) and o.size and k == self.key]
+        for i in range(len(arrs)):
+            for j in range(i + 1, min(len(arrs), i + 12)):
+                if arrs[i][2] is arrs[j][2]:
+                    continue
+                self.R.oracle(not np.shares_memory(arrs[i][2], arrs[j][2]), "results-share-memory", arrs[j][1],
+                              f"{arrs[i][0]} and {arrs[j][0]} share one buffer", sig="results-share-memory", trivial=True)
+        self.items = []
+
+
+# ------------------------------------------------------------------ every index spelling at every indexing entry point
+def chunks_of(kind, spec):
+    if kind == "v":
+        return list(spec)
+    N, n = spec
+    T = -(-N // n)
+    return [n] * (T - 1) + [N - (T - 1) * n] if T > 0 else []
+
+
+def index_types_stream(R: Run, Rm, GeoBox, GeoboxTiles):
+    """Tile (r, c) must be the same tile however the index is spelled (tuple, Index2d via iyx_/ixy_, XY, numpy ints,
+    negative), at every entry point that takes a tile index or a pixel; non-square tilings so that a swapped axis shows.
+    Two-sided: the result is compared with the region computed from the chunk tuples."""
+    from affine import Affine
+    from odc.geo import ixy_, iyx_
+    from odc.geo.types import XY, Index2d
+
+    rng = R.rng
+    specs = [("r", (10, 3), (20, 7)), ("r", (7, 2), (5, 5)), ("r", (5, 5), (9, 2)), ("r", (6, 4), (13, 3)),
+             ("v", (3, 3, 4), (7, 13)), ("v", (2, 0, 3), (1, 2, 1, 1)), ("v", (5,), (1, 1, 2)), ("v", (1, 2, 1, 1, 2), (4, 1))]
+    for _ in range(R.pick(4, 30)):
+        while True:
+            kind, sy, sx, _t = rnd_tiling2(R, Rm)
+            if len(chunks_of(kind, sy)) != len(chunks_of(kind, sx)):
+                break
+        specs.append((kind, sy, sx))
+
+    def spellings(r, c):
+        return [("tuple", (r, c)), ("iyx_", iyx_(r, c)), ("ixy_", ixy_(c, r)), ("XY", XY(x=c, y=r)),
+                ("Index2d", Index2d(x=c, y=r)), ("numpy-int", (np.int64(r), np.int32(c)))]
+
+    for kind, sy, sx in specs:
+        chy, chx = chunks_of(kind, sy), chunks_of(kind, sx)
+        Ty, Tx, NY, NX = len(chy), len(chx), sum(chy), sum(chx)
+        oy, ox = [0], [0]
+        for c_ in chy:
+            oy.append(oy[-1] + c_)
+        for c_ in chx:
+            ox.append(ox[-1] + c_)
+        t = Rm.Tiles((NY, NX), (sy[1], sx[1])) if kind == "r" else Rm.VariableSizedTiles((tuple(sy), tuple(sx)))
+        A = Affine(rng.choice([1, 2, 0.5]), 0, rng.randint(-40, 40) / 4, 0, -rng.choice([1, 2, 0.5]), rng.randint(-40, 40) / 4)
+        gbt = GeoboxTiles(GeoBox((NY, NX), A, "EPSG:3857"), (sy[1], sx[1]) if kind == "r" else (tuple(sy), tuple(sx)))
+        ty, tx = tiling_tok(kind, sy), tiling_tok(kind, sx)
+        held = Held(R)
+        held.hold("chunks", {"spec": [kind, sy, sx]}, t.chunks)
+        held.hold("gbt.chunks", {"spec": [kind, sy, sx]}, gbt.chunks)
+        for r in range(-Ty - 1, Ty + 1):
+            for c in range(-Tx - 1, Tx + 1):
+                valid = -Ty <= r < Ty and -Tx <= c < Tx
+                if valid:
+                    rr, cc = r % Ty, c % Tx
+                    y0, y1, x0, x1 = oy[rr], oy[rr + 1], ox[cc], ox[cc + 1]
+                    w0 = _apply(A, x0, y0)
+                    want = {
+                        "get": f"{y0}:{y1} {x0}:{x1}", "roi": f"{y0}:{y1} {x0}:{x1}",
+                        "tile_shape": f"{y1 - y0} {x1 - x0}", "chunk_shape": f"{y1 - y0} {x1 - x0}",
+                        "crop": f"{y1 - y0} {x1 - x0}", "gbt.crop": f"{y1 - y0} {x1 - x0}",
+                        "pix_bbox": f"{x0} {y0} {x1} {y1}",
+                        "gbt.get": f"{y1 - y0} {x1 - x0} {frac_s(w0[0])} {frac_s(w0[1])}",
+                    }
+                else:
+                    want = dict.fromkeys(("get", "roi", "tile_shape", "chunk_shape", "crop", "gbt.crop", "pix_bbox", "gbt.get"),
+                                         "ERR:IndexError")
+                for name, idx in spellings(r, c):
+                    eps = {
+                        "get": lambda: " ".join(ns(v) for v in t[idx]),
+                        "roi": lambda: " ".join(ns(v) for v in gbt.roi[idx]),
+                        "tile_shape": lambda: "{} {}".format(*t.tile_shape(idx).yx),
+                        "chunk_shape": lambda: "{} {}".format(*gbt.chunk_shape(idx).yx),
+                        "crop": lambda: "{} {}".format(*t.crop(idx).base.yx),
+                        "gbt.crop": lambda: "{} {}".format(*gbt.crop[idx].base.shape.yx),
+                        "pix_bbox": lambda: "{} {} {} {}".format(*(int(v) for v in gbt.pix_bbox(idx).bbox)),
+                        "gbt.get": lambda: (lambda g: "{} {} {} {}".format(g.shape.y, g.shape.x, frac_s(g.affine.c),
+                                                                             frac_s(g.affine.f)))(gbt[idx]),
+                    }
+                    for ep, fn in eps.items():
+                        got = guarded(fn)
+                        if name == "numpy-int" and got.startswith("ERR:") and got != "ERR:IndexError":
+                            continue  # numpy integers are not an accepted spelling at this entry point
+                        if name == "tuple" and ep == "get":
+                            R.corr(f"c04 t2 get {ty} {tx} {enc(r)} {enc(c)}", lambda: got, sig="t2-get|index-grid")
+                        if name == "tuple" and ep == "tile_shape":
+                            R.corr(f"c04 t2 shape {ty} {tx} {r} {c}", lambda: got, sig="t2-shape|index-grid")
+                        R.oracle(got == want[ep], "index-spelling-wrong-tile",
+                                 {"spec": [kind, list(sy), list(sx)], "entry": ep, "spelling": name, "r": r, "c": c},
+                                 f"{ep}[{name} r={r} c={c}] = {got}, tile ({r},{c}) is {want[ep]}",
+                                 sig=f"index|{ep}|{name}", trivial=not valid)
+                        if valid and ep in ("get", "pix_bbox") and name in ("iyx_", "tuple"):
+                            held.hold(f"{ep}[{name} {r},{c}]", {"spec": [kind, list(sy), list(sx)], "r": r, "c": c}, got)
+        # pixel spellings for locate
+        for _k in range(R.pick(25, 120)):
+            py, px = rng.randint(-1, NY), rng.randint(-1, NX)
+            if 0 <= py < NY and 0 <= px < NX:
+                wr = max(i for i in range(Ty) if oy[i] <= py < oy[i + 1])
+                wc = max(i for i in range(Tx) if ox[i] <= px < ox[i + 1])
+                want_l = f"{wr} {wc}"
+            else:
+                want_l = "ERR:IndexError"
+            for name, idx in spellings(py, px):
+                got = guarded(lambda: "{} {}".format(*(int(v) for v in t.locate(idx))))
+                R.oracle(got == want_l, "index-spelling-wrong-tile",
+                         {"spec": [kind, list(sy), list(sx)], "entry": "locate", "spelling": name, "r": py, "c": px},
+                         f"locate[{name} y={py} x={px}] = {got}, want {want_l}", sig=f"index|locate|{name}")
+        held.recheck()
+
+
+# ------------------------------------------------------------------ several windows from ONE assembler, compared afterwards
+def assembler_held(R: Run, BlockAssembler):
+    """Results of earlier extract / [] calls are kept while later, equally shaped, windows and planes are requested
+    from the same assembler; afterwards every held result must still equal the mosaic window it was asked for,
+    distinct results must not share memory with each other or with the input blocks, and the blocks must be untouched."""
+    rng = R.rng
+    for it in range(R.pick(60, 600)):
+        ty, tx = rng.randint(1, 4), rng.randint(1, 4)
+        chy = [rng.choice([1, 2, 3, 4, 0]) for _ in range(ty)]
+        chx = [rng.choice([1, 2, 3, 5, 0]) for _ in range(tx)]
+        NY, NX = sum(chy), sum(chx)
+        lead = rng.choice([[], [], [3], [2]])
+        trail = rng.choice([[], [2], []])
+        a = len(lead)
+        dtype = rng.choice(["int16", "uint8", "float32", "float64"])
+        keys = [(iy, ix) for iy in range(ty) for ix in range(tx) if rng.random() < 0.6]
+        if not keys or NY == 0 or NX == 0:
+            continue
+        fill = rng.choice([None, -1 if dtype == "int16" else 7])
+        blocks = {k: (cell_vals(100, k, lead, chy[k[0]], chx[k[1]], trail) + it % 50).astype(dtype) for k in keys}
+        blocks_before = {k: b.copy() for k, b in blocks.items()}
+        oy = np.concatenate([[0], np.cumsum(chy)]).astype(int)
+        ox = np.concatenate([[0], np.cumsum(chx)]).astype(int)
+        fillv = (np.nan if dtype.startswith("float") else 0) if fill is None else fill
+        mosaic = np.full((*lead, NY, NX, *trail), fillv, dtype="float64")
+        for k, b in blocks.items():
+            mosaic[(*[slice(None)] * a, slice(oy[k[0]], oy[k[0] + 1]), slice(ox[k[1]], ox[k[1] + 1]))] = b
+        case = {"chy": chy, "chx": chx, "keys": keys, "lead": lead, "trail": trail, "dtype": dtype, "fill": fill}
+        try:
+            asm = BlockAssembler(blocks, (tuple(chy), tuple(chx)), axis=a)
+        except Exception as e:  # pylint: disable=broad-except
+            R.oracle(False, "assembler-raises", case, repr(e))
+            continue
+        h, w = rng.randint(1, NY), rng.randint(1, NX)
+        wins = []
+        for _k in range(rng.randint(3, 6)):     # a grid of equally sized windows
+            y, x = rng.randint(0, NY - h), rng.randint(0, NX - w)
+            wins.append((slice(y, y + h), slice(x, x + w)))
+        wins += [(slice(0, NY), slice(0, NX))] * 2 + [wins[0]]
+        held = Held(R)
+        got = []
+        for win in wins:
+            roi = (*[slice(None)] * a, *win, *[slice(None)] * len(trail)) if rng.random() < 0.5 or not (lead or trail) else win
+            try:
+                xx = asm.extract(fill, roi=roi) if (fill is not None or rng.random() < 0.5) else asm[roi]
+            except Exception as e:  # pylint: disable=broad-except
+                R.oracle(False, "assembler-raises", dict(case, win=str(win)), repr(e))
+                continue
+            got.append((win, held.hold(f"extract{win}", dict(case, win=str(win)), xx)))
+        if lead or trail:                          # all planes, one after the other, as planes_yx suggests
+            for plane in list(asm.planes_yx()):
+                try:
+                    xx = asm[plane]
+                except Exception as e:  # pylint: disable=broad-except
+                    R.oracle(False, "assembler-raises", dict(case, plane=str(plane)), repr(e))
+                    continue
+                got.append((plane, held.hold(f"plane{plane}", dict(case, plane=str(plane)), xx)))
+        for win, xx in got:
+            if len(win) == 2:
+                want = mosaic[(*[slice(None)] * a, *win)]
+            else:
+                want = mosaic[tuple(win)]
+            g = xx.astype("float64")
+            R.oracle(g.shape == want.shape and bool(np.array_equal(g, want, equal_nan=True)), "held-window-ne-mosaic",
+                     dict(case, win=str(win)), "a window read earlier from the same assembler no longer equals the mosaic",
+                     sig="asm-held")
+            R.oracle(not any(np.shares_memory(xx, b) for b in blocks.values()), "result-aliases-input", dict(case, win=str(win)),
+                     "extract result shares memory with an input block", sig="asm-alias", trivial=True)
+        held.recheck()
+        R.oracle(all(np.array_equal(blocks[k], blocks_before[k], equal_nan=True) for k in blocks), "input-mutated", case,
+                 "input blocks were modified by extract", sig="asm-input", trivial=True)
+
+
 # ------------------------------------------------------------------ entry points
 def huge_stream(R: Run, Rm):
     """Tiles.__init__ used to divide in doubles (`int(math.ceil(float(N) / n))`): sizes around and far beyond
@@ -760,6 +998,8 @@ def run(R: Run):
 
     lift_and_geobox(R, Rm, GeoBox, GeoboxTiles)
     assembler(R, BlockAssembler)
+    assembler_held(R, BlockAssembler)
+    index_types_stream(R, Rm, GeoBox, GeoboxTiles)
     huge_stream(R, Rm)
     int32_edge_stream(R, Rm)
 
